@@ -1331,8 +1331,8 @@ theorem freeze_batch_rollover_leaves_older_file_unsynced :
 
 `freeze` and `truncate` read `self.number()` before taking the lock (`Model/FreezerTop.lean`,
 `freezeFrom` / `truncateFrom`).  `TopOp.freezeRace` / `TopOp.truncateRace` put those operations —
-with ANY stale value for a freeze — into the histories of `freezer_holds_chain_prefix`, so that
-theorem now covers every interleaving of whole operations of a freezer thread with other threads'
+with ANY stale value for a freeze — into the histories of `freezer_holds_chain_prefix`, which
+now covers every interleaving of whole operations of a freezer thread with other threads'
 freezes, truncates (guard `n0 ≤ number`), re-opens and crashes.  The statements below say what the
 stale read does.  Stream `top` drives the real race with threads (op `race`). -/
 
